@@ -1431,6 +1431,71 @@ let op_ast r = function
     r.detail <- Printf.sprintf "pairs=%d%s" pairs (if r.detail = "" then "" else "; " ^ r.detail)
   | _ -> failwith "ast: fields"
 
+(* ---------- op: regex ---------- *)
+(* regex id name input | FindSubmatchIndex.  Three-way check: Go's regexp =
+   the interpreter of Spec/Regex.v on the generated definition (corr:regex:<name>),
+   and Go's regexp = the hand-written matcher of the model (corr:matcher:<name>). *)
+let regex_table : (string * M.regex) list = List.map (fun (k, re) -> (string_of_bytes k, re)) M.re_all
+let op_regex r = function
+  | [name; inhex; ires] ->
+    let ws = unhex inhex in
+    let w = bytes_of_string ws in
+    let re = (match List.assoc_opt name regex_table with Some re -> re | None -> failwith ("regex: unknown expression " ^ name)) in
+    tag r name;
+    tag r (if ires = "-" then "nomatch" else "match");
+    (* the interpreter *)
+    let mres = match M.re_find re w with
+      | None -> "-"
+      | Some l -> String.concat "," (List.map (function
+          | None -> "-1,-1"
+          | Some (b, e) -> Printf.sprintf "%d,%d" (int_of_nat b) (int_of_nat e)) l) in
+    if mres <> ires then begin
+      flag r ("corr:regex:" ^ name);
+      r.detail <- Printf.sprintf "interpreter %s impl %s" mres ires
+    end;
+    (* the hand-written matcher: same match / no match, same captured strings *)
+    let impl : string list option =
+      if ires = "-" then None else begin
+        let a = Array.of_list (List.map int_of_string (String.split_on_char ',' ires)) in
+        let g i = if 2 * i + 1 >= Array.length a || a.(2*i) < 0 then "" else String.sub ws a.(2*i) (a.(2*i+1) - a.(2*i)) in
+        Some (match name with
+          | "reRoutineHeader" -> [g 1; g 2; g 3]
+          | "reMinutes" | "reCreated" | "reModule" | "reVersion" -> [g 1]
+          | "reUnavail" -> []
+          | "reFile" | "reFunc" | "reRaceGoroutine" | "reMethodSymbol" -> [g 1; g 2]
+          | "reRaceOperationHeader" -> [(if g 1 = "Write" then "1" else "0"); g 2; g 3]   (* bytes.Equal(match[1], writeCap) *)
+          | "reRacePreviousOperationHeader" -> [(if g 1 = "write" then "1" else "0"); g 2; g 3]
+          | _ -> failwith "regex: projection")
+      end in
+    let sb = string_of_bytes in
+    let model : string list option = match name with
+      | "reRoutineHeader" -> Option.map (fun ((a, b), c) -> [sb a; sb b; sb c]) (M.match_routine_header w)
+      | "reMinutes" -> Option.map (fun a -> [sb a]) (M.match_minutes w)
+      | "reUnavail" -> if M.match_unavail w then Some [] else None
+      | "reFile" -> Option.map (fun (a, b) -> [sb a; sb b]) (M.match_file w)
+      | "reCreated" -> Option.map (fun a -> [sb a]) (M.match_created w)
+      | "reFunc" -> Option.map (fun (a, b) -> [sb a; sb b]) (M.match_func w)
+      | "reRaceOperationHeader" -> Option.map (fun ((x, a), b) -> [(if x then "1" else "0"); sb a; sb b]) (M.match_race_op w)
+      | "reRacePreviousOperationHeader" -> Option.map (fun ((x, a), b) -> [(if x then "1" else "0"); sb a; sb b]) (M.match_race_prev w)
+      | "reRaceGoroutine" -> Option.map (fun (a, b) -> [sb a; sb b]) (M.match_race_goroutine w)
+      | "reModule" -> Option.map (fun a -> [sb a]) (M.find_module w)
+      | "reVersion" -> Option.map (fun a -> [sb a]) (M.find_version w)
+      | "reMethodSymbol" -> Option.map (fun (a, b) -> [sb a; sb b]) (M.match_method_symbol w)
+      | _ -> failwith "regex: matcher" in
+    (* the three line expressions with a "." are characterised on LF-free texts only
+       (C00_file, C00_created, C00_func; the scanner strips the end of line first:
+       C00_scan_texts_no_lf); the nine others are compared on every input *)
+    let in_domain = match name with
+      | "reFile" | "reCreated" | "reFunc" -> not (String.contains ws '\n')
+      | _ -> true in
+    if not in_domain then tag r "matcher-unchecked:lf"
+    else if model <> impl then begin
+      flag r ("corr:matcher:" ^ name);
+      let show = function None -> "-" | Some l -> String.concat "," (List.map hex l) in
+      r.detail <- (if r.detail = "" then "" else r.detail ^ "; ") ^ Printf.sprintf "matcher %s impl %s" (show model) (show impl)
+    end
+  | _ -> failwith "regex: fields"
+
 let () =
   let ops : (string, res -> string list -> unit) Hashtbl.t = Hashtbl.create 16 in
   Hashtbl.replace ops "aggregate" op_aggregate;
@@ -1439,6 +1504,7 @@ let () =
   Hashtbl.replace ops "sigops" op_sigops;
   Hashtbl.replace ops "rlines" op_rlines;
   Hashtbl.replace ops "ast" op_ast;
+  Hashtbl.replace ops "regex" op_regex;
   Hashtbl.replace ops "scan" op_scan;
   Hashtbl.replace ops "scanseq" op_scanseq;
   Hashtbl.replace ops "cut" op_cut;
